@@ -886,7 +886,9 @@ class Sim:
                     self.set_session_config(op.apply(self.env.config_spec(), self.get_session_config()))
         except Exception:
             self.tx_error()           # dbv.on_error()
-            if unit.tx_commit and self._in_tx:   # and not be_conn.in_tx(): a failed COMMIT ends the tx
+            # `if query_unit.tx_commit and not be_conn.in_tx() and dbv.in_tx(): dbv.abort_tx()`;
+            # bf == 2: the backend failed but is still inside the block
+            if unit.tx_commit and bf != 2 and self._in_tx:
                 self.abort_tx()
             raise
         else:
@@ -1003,8 +1005,9 @@ class PG2:
                 return i
         return None
 
-    def step(self, stmt: str, cf: bool, bf: bool) -> str:
-        """returns the outcome class: ok / rej / failed"""
+    def step(self, stmt: str, cf: bool, bf) -> str:
+        """returns the outcome class: ok / rej / failed.  bf: 0 no backend failure, 1 the backend
+        fails, 2 the backend fails and stays inside the block (matters for COMMIT)"""
         if '; ' in stmt:        # a script with transaction control in it: refused as a whole
             if self.in_tx:
                 self.failed = True
@@ -1022,7 +1025,7 @@ class PG2:
             if k in 'CDLB':
                 return 'rej'
             if k == 'R':
-                return 'ok'
+                return 'failed' if bf else 'ok'
             if cf:
                 return 'rej'
             if bf:
@@ -1048,11 +1051,15 @@ class PG2:
         if k == 'S':
             return fail('rej')
         if k == 'C':
+            if bf == 2:                 # failed, and the backend is still in the (now aborted) block
+                return fail('failed')
             if bf:
                 self.in_tx = False
                 return 'failed'
             self.base, self.in_tx = self.cur, False
             return 'ok'
+        if k == 'R' and bf:             # a ROLLBACK that failed: the block is still there, aborted
+            return fail('failed')
         if k == 'R':
             self.in_tx = False
             return 'ok'
@@ -1082,7 +1089,9 @@ class PG2:
 
 
 def classify_uncovered(evs, upto: int, transport: str = 'p') -> str | None:
-    """Which feature outside the proved envelope occurs in evs[:upto+1] (None = inside)."""
+    """Which feature for which the real code is KNOWN to diverge from the spec occurs in evs[:upto+1]
+    (None = the real code is expected to agree: the proved envelope, plus COMMIT / ROLLBACK failing in
+    place, which is tested but not proved)."""
     pg = PG2((0, 0, 0, 0))
     cls = None
     for (stmt, cf, bf) in evs[:upto + 1]:
@@ -1208,21 +1217,34 @@ def gen_l1_exhaustive(maxlen):
 
 
 def gen_l2_random(rng, n_cases, maxlen, covered: bool):
+    """random histories.  Bias: after an accepted ROLLBACK TO (the server's transaction id is then a
+    savepoint id) a COMMIT / ROLLBACK that fails while the backend stays in the block is likely, followed
+    by savepoint / transaction statements — the compiler's current Transaction object is then a fresh
+    implicit one and `sync_tx` has to bring the old one back."""
     for _ in range(n_cases):
         ln = rng.randint(1, maxlen)
         names = rng.choice([['1'], ['1', '2'], ['1', '2', '3']])
         evs, tag = [], 10
         pf = rng.choice([0.0, 0.05, 0.15])
+        pdet = rng.choice([0.0, 0.3, 0.6])
         pg = PG2((0, 0, 0, 0))
+        detached = 0          # > 0: right after a detaching failure, prefer tx / savepoint statements
+        queue = []
         for _ in range(ln):
             for _try in range(20):
-                k = rng.choices(['S', 'C', 'R', 'D', 'L', 'B', 'U', 'A', 'F', 'Q'],
-                                weights=[3, 1, 1, 6, 3, 4, 3, 2, 2, 2])[0]
-                cf = bf = False
-                if k in 'UAFQS' and rng.random() < pf:
-                    cf = True
-                if rng.random() < pf and k in ('UAFQC' if covered else 'UAFQCSDL'):
-                    bf = True
+                if queue:
+                    k, cf, bf = queue.pop(0)
+                elif detached > 0:
+                    k = rng.choices(['B', 'D', 'C', 'S', 'R', 'Q', 'L'], weights=[6, 3, 2, 2, 2, 1, 1])[0]
+                    cf = bf = False
+                else:
+                    k = rng.choices(['S', 'C', 'R', 'D', 'L', 'B', 'U', 'A', 'F', 'Q'],
+                                    weights=[3, 1, 1, 6, 3, 4, 3, 2, 2, 2])[0]
+                    cf = bf = False
+                    if k in 'UAFQS' and rng.random() < pf:
+                        cf = True
+                    if rng.random() < pf and k in ('UAFQCR' if covered else 'UAFQCRSDL'):
+                        bf = rng.choice([1, 2]) if k == 'C' else 1
                 if k in 'DLB':
                     s = f'{k} {rng.choice(names)}'
                 elif k == 'U':
@@ -1231,14 +1253,33 @@ def gen_l2_random(rng, n_cases, maxlen, covered: bool):
                     s = f'{k} {tag + 1}'
                 else:
                     s = k
+                healthy = pg.in_tx and not pg.failed
+                if k == 'B' and pg.in_tx and pg.failed and pg.find(s.split(' ')[1]) is None and detached:
+                    # the model's backend never refuses a statement by itself: a ROLLBACK TO of a name
+                    # PostgreSQL does not have, sent through the `_try_compile_rollback` escape, would be
+                    # refused by the real backend only (see notes: outside the model)
+                    continue
                 if covered and classify_uncovered(evs + [(s, cf, bf)], len(evs)) is not None:
                     continue
                 break
             else:
-                s, cf, bf = 'Q', False, False
+                s, cf, bf = 'Q', False, 0
             tag += 4
+            was_healthy = pg.in_tx and not pg.failed
+            r = pg.step(s, cf, bf)
             evs.append((s, cf, bf))
-            pg.step(s, cf, bf)
+            w0 = s[0]
+            if was_healthy and r == 'failed' and ((w0 == 'C' and bf == 2) or w0 == 'R'):
+                detached = rng.randint(1, 3) + 1
+            elif not pg.in_tx or not pg.failed:
+                detached = 0
+            if detached > 0:
+                detached -= 1 if detached > 1 else 0
+            # after an accepted ROLLBACK TO: maybe  [payload]; COMMIT/ROLLBACK that fails in place
+            if w0 == 'B' and r == 'ok' and not queue and rng.random() < pdet:
+                if rng.random() < 0.6:
+                    queue.append((rng.choice(['U', 'A', 'F', 'Q']), False, 0))
+                queue.append(rng.choice([('C', False, 2), ('R', False, 1)]))
         yield (rng.choice(['p', 'p', 'r']), (1, 2, 3, 4), evs)
 
 
@@ -1341,6 +1382,29 @@ def real_core_release_shadowed() -> dict:
             'payload_after_sync_tx_to_released_inner_a': after, 'ids': [a1 - R.T0, a2 - R.T0]}
 
 
+def detached_stats(evs):
+    """(detaching failures after a ROLLBACK TO in the same block, statements sent while detached,
+    ROLLBACK TOs among them)"""
+    pg = PG2((0, 0, 0, 0))
+    rb_to = det = False
+    n_det = n_st = n_b = 0
+    for (stmt, cf, bf) in evs:
+        healthy = pg.in_tx and not pg.failed
+        if det:
+            n_st += 1
+            n_b += stmt[0] == 'B'
+        r = pg.step(stmt, cf, bf)
+        if not pg.in_tx:
+            rb_to = det = False
+        elif stmt[0] == 'B' and r == 'ok':
+            rb_to, det = True, False
+        elif healthy and r == 'failed' and rb_to and '; ' not in stmt and (
+                (stmt[0] == 'C' and bf == 2) or stmt[0] == 'R'):
+            det = True
+            n_det += 1
+    return n_det, n_st, n_b
+
+
 def REGRESSIONS():
     """corpus/C09/regressions.json: histories that once diverged (run first)"""
     import os
@@ -1348,7 +1412,7 @@ def REGRESSIONS():
     out = []
     for c in json.load(open(path))['cases']:
         out.append((c['name'], (c['transport'], tuple(c['payload']),
-                                [(s, bool(cf), bool(bf)) for s, cf, bf in c['events']])))
+                                [(s, bool(cf), int(bf)) for s, cf, bf in c['events']])))
     return out
 
 
@@ -1369,7 +1433,7 @@ def run(ctx: core.Ctx):
             if isinstance(d, dict) and 'l2' in d:
                 t, pl, evs = d['l2']
                 (l2b_cases if d.get('bridge') else l2_cases).append(
-                    ((t, tuple(pl), [(s, bool(c), bool(b)) for s, c, b in evs]), 'replay'))
+                    ((t, tuple(pl), [(s, bool(c), int(b)) for s, c, b in evs]), 'replay'))
     else:
         for c in gen_l1_exhaustive(ctx.budget(3, 5)):
             l1_cases.append((c, 'exh', None))
@@ -1398,7 +1462,9 @@ def run(ctx: core.Ctx):
                                                for s, c, b in WITNESSES['release-shadowed']]),
                           'witness:release-shadowed'))
         for name, c in REGRESSIONS():
-            l2b_cases.insert(0, (c, 'regression'))
+            import re as _re
+            evs_b = [(_re.sub(r'U (\d+) \d+', r'U \1 2', st), cf, bf) for st, cf, bf in c[2]]
+            l2b_cases.insert(0, ((c[0], c[1], evs_b), 'regression'))
 
     # ---------------- level 1
     lines, reals = [], []
@@ -1527,6 +1593,10 @@ def run(ctx: core.Ctx):
         'level2_statements': sum(hist2.values()), 'level2_outcomes': hist2,
         'level2_streams': _count(s.split(':')[0] for _, s in l2_all),
         'bridge_statements': sum(hist2b.values()), 'bridge_outcomes': hist2b,
+        'detached_transaction_shapes': dict(zip(
+            ('commit_or_rollback_failing_in_place_after_rollback_to', 'statements_sent_while_detached',
+             'rollback_to_while_detached'),
+            map(sum, zip(*[detached_stats(c[2]) for c, _ in l2_all])))),
         'outside_envelope_divergences': findings,
         'release_shadowed_compiler_side_on_real_classes_only': real_core_release_shadowed(),
         'divergences_also_seen_through_real_parser_and_compilers': sorted(bridge_confirms),
